@@ -59,13 +59,29 @@ pub fn tlc_case(idx: usize, c: &Value) -> Value {
 /// numbers at grouping boundaries, vectors around the abbreviation threshold, blobs of all byte classes, nested options
 pub fn shaped_case(idx: usize, g: &mut crate::gen::G) -> Value {
     let env = TypeEnv::new();
-    let k = g.rng_range(0, 7);
+    let k = g.rng_range(0, 8);
     let (t, v): (Type, IDLValue) = match k {
         0 => { let n: u64 = [0u64, 9, 999, 1000, 999_999, 1_000_000, u64::MAX][g.rng_range(0, 7)]; (TypeInner::Nat64.into(), IDLValue::Nat64(n)) }
         1 => { let n: i64 = [0i64, -1, -999, -1000, 1000, i64::MIN, i64::MAX, -1_000_000][g.rng_range(0, 8)]; (TypeInner::Int64.into(), IDLValue::Int64(n)) }
         2 => { let len = [0usize, 1, 9, 10, 11, 12, 30][g.rng_range(0, 7)]; (TypeInner::Vec(TypeInner::Int16.into()).into(), IDLValue::Vec((0..len).map(|i| IDLValue::Int16(i as i16 * 1000 - 5000)).collect())) }
         3 => { let len = [0usize, 1, 2, 10, 11, 40][g.rng_range(0, 6)]; let b: Vec<u8> = (0..len).map(|_| [0u8, 9, 10, 13, 0x1f, 0x20, 0x22, 0x27, 0x5c, 0x60, 0x7e, 0x7f, 0x80, 0xff, b'a'][g.rng_range(0, 15)]).collect(); (TypeInner::Vec(TypeInner::Nat8.into()).into(), IDLValue::Blob(b)) }
         4 => { let depth = g.rng_range(1, 5); let mut t: Type = TypeInner::Nat8.into(); let mut v = IDLValue::Nat8(200); for _ in 0..depth { t = TypeInner::Opt(t).into(); v = IDLValue::Opt(Box::new(v)); } (t, v) }
+        7 => {
+            // labels and method names that are words of the grammar (must be printed quoted where the lexer would not read an identifier)
+            const KW: &[&str] = &["true", "false", "null", "opt", "vec", "record", "variant", "service", "func", "query", "oneway", "composite_query", "blob", "principal", "import", "type", "nan", "inf", "float32", "empty", "reserved", "bool", "text", "nat", "int", "id", "_", "a1"];
+            let n = KW[g.rng_range(0, KW.len())].to_string();
+            let m = KW[g.rng_range(0, KW.len())].to_string();
+            let lab = |s: &str| Rc::new(Label::Named(s.to_string()));
+            let vt: Type = TypeInner::Variant(vec![Field { id: lab(&m), ty: TypeInner::Null.into() }]).into();
+            let ft: Type = TypeInner::Func(Function { modes: vec![], args: vec![], rets: vec![] }).into();
+            let mut fs = vec![Field { id: lab(&n), ty: vt.clone() }, Field { id: lab("zz"), ty: ft.clone() }];
+            fs.sort_by_key(|f| f.id.get_id());
+            let t: Type = TypeInner::Record(fs).into();
+            let mut vf = vec![IDLField { id: Label::Named(n.clone()), val: IDLValue::Variant(VariantValue(Box::new(IDLField { id: Label::Named(m.clone()), val: IDLValue::Null }), 0)) },
+                              IDLField { id: Label::Named("zz".into()), val: IDLValue::Func(Principal::from_slice(&[1]), m.clone()) }];
+            vf.sort_by_key(|f| f.id.get_id());
+            (t, IDLValue::Record(vf))
+        }
         5 => { let n = candid::Nat::parse(["0", "999", "1000", "18446744073709551616", "340282366920938463463374607431768211456", "1000000000000000000000000000000000000000000"][g.rng_range(0, 6)].as_bytes()).unwrap(); (TypeInner::Nat.into(), IDLValue::Nat(n)) }
         _ => { let f = [0.0f64, -0.0, 1.0, -1.5, 1e21, 1e-7, f64::MAX, f64::MIN_POSITIVE, 123456789.125, 0.1][g.rng_range(0, 10)]; (TypeInner::Float64.into(), IDLValue::Float64(f)) }
     };
